@@ -1405,9 +1405,11 @@ fn write_central_zip64_extra_field<T: Write>(writer: &mut T, file: &ZipFileData)
     // only appear if the corresponding Local or Central
     // directory record field is set to 0xFFFF or 0xFFFFFFFF.
     let mut size = 0;
-    let uncompressed_size = file.uncompressed_size > spec::ZIP64_BYTES_THR;
-    let compressed_size = file.compressed_size > spec::ZIP64_BYTES_THR;
-    let header_start = file.header_start > spec::ZIP64_BYTES_THR;
+    // 0xFFFFFFFF in the fixed record means "see the ZIP64 block", so a value of exactly
+    // that size needs its slot as well (otherwise a reader takes the next slot for it).
+    let uncompressed_size = file.uncompressed_size >= spec::ZIP64_BYTES_THR;
+    let compressed_size = file.compressed_size >= spec::ZIP64_BYTES_THR;
+    let header_start = file.header_start >= spec::ZIP64_BYTES_THR;
     if uncompressed_size {
         size += 8;
     }
